@@ -143,17 +143,27 @@ class PackedPointRecord:
                 )
             else:
                 other_record = PackedPointRecord(one_point, other_record.point_format)
-        for dim_name in self.point_format.dimension_names:
+        # a standard dimension is copied from the standard dimension of that
+        # name, an extra dimension from the extra dimension of that name:
+        # record[name] alone cannot tell them apart when an extra dimension
+        # is named like a sub field, a legacy alias or a scaled coordinate
+        # (it resolves these names to the standard dimension)
+        other_standard = set(other_record.point_format.standard_dimension_names)
+        for dim_name in self.point_format.standard_dimension_names:
+            if dim_name not in other_standard:
+                continue
             try:
-                other_dim = other_record[dim_name]
-                if isinstance(other_dim, ScaledArrayView) and isinstance(
-                    self[dim_name], ScaledArrayView
-                ):
-                    # copy the stored values, going through the scaled
-                    # values would round them
-                    self.array[dim_name] = other_record.array[dim_name]
-                else:
-                    self[dim_name] = np.array(other_dim)
+                self[dim_name] = np.array(other_record[dim_name])
+            except ValueError:
+                pass
+        other_extra = set(other_record.point_format.extra_dimension_names)
+        for dim_name in self.point_format.extra_dimension_names:
+            if dim_name not in other_extra:
+                continue
+            try:
+                # the stored values (going through the scaled values of a
+                # scaled dimension would round them)
+                self.array[dim_name] = other_record.array[dim_name]
             except ValueError:
                 pass
 
